@@ -327,6 +327,14 @@ class _Canon(ast.NodeTransformer):
 
     def visit_Subscript(self, n):
         self.generic_visit(n)
+        # S46  E.partition(sep)[0] -> E.split(sep)[0]   (equal for every string and non-empty sep) when the reference spells it so
+        if isinstance(n.slice, ast.Constant) and n.slice.value == 0 and isinstance(n.value, ast.Call) and isinstance(n.value.func, ast.Attribute) \
+                and n.value.func.attr == 'partition' and len(n.value.args) == 1 and not n.value.keywords:
+            alt = ast.Subscript(value=ast.Call(func=ast.Attribute(value=n.value.func.value, attr='split', ctx=ast.Load()),
+                                               args=n.value.args, keywords=[]), slice=ast.Constant(value=0), ctx=n.ctx)
+            if any(U(alt) in t_ for t_ in self.stmts):
+                self.steps.append('S46 ' + U(n)[:50])
+                return _relocate(alt, n)
         sl = n.slice
         if isinstance(sl, ast.Slice) and sl.step is None and U(n) not in self.subs:
             if sl.lower is None:
@@ -851,6 +859,21 @@ def _fold_container_alias_block(fn, out, ref_names):
     only in the rest of this block: t and P then denote the same object throughout)."""
     import copy as _c8
     steps = []
+    # the chained spelling  t = P = <new container>  (one local, one place) is first split into  t = <new container>; P = t
+    j_ = 0
+    while j_ < len(out):
+        c_ = out[j_]
+        if isinstance(c_, ast.Assign) and len(c_.targets) == 2 and _builds_container(c_.value) \
+                and sum(isinstance(t, ast.Name) for t in c_.targets) == 1 and sum(isinstance(t, (ast.Subscript, ast.Attribute)) for t in c_.targets) == 1:
+            nm_ = next(t for t in c_.targets if isinstance(t, ast.Name))
+            pl_ = next(t for t in c_.targets if not isinstance(t, ast.Name))
+            if nm_.id not in ref_names and _pure(pl_):
+                a1 = _relocate(ast.Assign(targets=[ast.Name(id=nm_.id, ctx=ast.Store())], value=c_.value), c_)
+                a2 = _relocate(ast.Assign(targets=[pl_], value=ast.Name(id=nm_.id, ctx=ast.Load())), c_)
+                out[j_:j_ + 1] = [a1, a2]
+                j_ += 2
+                continue
+        j_ += 1
     k_ = 0
     while k_ + 1 < len(out):
         a_, b_ = out[k_], out[k_ + 1]
@@ -1460,7 +1483,8 @@ def inline_fresh_temps(rel, module, refnames):
                     stx = blk[k]
                     if isinstance(stx, ast.Assign) and len(stx.targets) == 1 and isinstance(stx.targets[0], ast.Tuple) \
                             and all(isinstance(e, ast.Name) and e.id not in want and e.id not in params for e in stx.targets[0].elts) \
-                            and _simple_arg(stx.value) and not isinstance(stx.value, ast.Constant) and len(stx.targets[0].elts) <= 4:
+                            and (_simple_arg(stx.value) or (isinstance(stx.value, ast.Call) and _pure(stx.value) and not _builds_container(stx.value))) \
+                            and not isinstance(stx.value, ast.Constant) and len(stx.targets[0].elts) <= 4:
                         import copy as _cc2
                         rep = []
                         for idx, e in enumerate(stx.targets[0].elts):
